@@ -78,6 +78,7 @@ pub fn expr(e: &J) -> String {
                 format!("{}.{}", ident(q), n)
             }
         }
+        "star" => format!("{}.*", ident(e["q"].as_str().unwrap_or(""))),
         "lit" => lit(&e["v"]),
         "bin" => format!(
             "({} {} {})",
